@@ -12,6 +12,7 @@
  *   drv_c06 sweep <dlci_lo> <dlci_hi> <maxlen>   Space B: transparency, one frame at a time
  *   drv_c06 resync <part> <nparts>               over-long frame / noise scenarios with following frames
  *   drv_c06 echo                                 DLCI 128 (built-in echo) scenario
+ *   drv_c06 regsweep <dlci_lo> <dlci_hi>         handlers registered on subsets of the DLCIs
  *   drv_c06 backlog                              255/256/257/512 messages queued, then drained
  *   drv_c06 replay <tok,tok,...>                 one event sequence from reset
  *
@@ -232,6 +233,12 @@ static void ref_reset(void)
 	npend = 0; have_cur = 0; cur_idx = cur_esc = cur_overlong = cur_wirebad = 0; desync = 0; taint = 0; ndv = 0; abandon = 0; oversize_len = -1;
 }
 
+/* which DLCIs 0..127 get the recording handler at reset (default: all); DLCI 128 always keeps the echo */
+static uint8_t regmask[NDLCI];
+static int reg_all = 1;
+static int is_reg(int d) { return d == 128 || (d >= 0 && d < NDLCI && (reg_all || regmask[d])); }
+static unsigned long n_unreg_frames;
+
 static void do_reset(void)
 {
 	unsigned int i;
@@ -244,7 +251,7 @@ static void do_reset(void)
 	memset(&sercomm, 0, sizeof(sercomm));
 	sercomm_init();
 	for (i = 0; i < NDLCI; i++)
-		if (sercomm_register_rx_cb(i, on_rx) != 0) HDIE("{\"harness_error\": \"register %u\"}\n", i);
+		if (is_reg(i) && sercomm_register_rx_cb(i, on_rx) != 0) HDIE("{\"harness_error\": \"register %u\"}\n", i);
 	ref_reset();
 }
 
@@ -313,6 +320,15 @@ static void judge(int frame_end, int echo_before)
 		if (ndv)
 			viol(kindkey("spurious", have_cur ? cur.dlci : -1),
 			     "handler of DLCI 0x%02x called with %s although no frame was complete", dv[0].dlci, hex(dv[0].data, dv[0].len));
+		ndv = 0;
+		return;
+	}
+	if (!is_reg(cur.dlci)) {
+		/* nobody registered for this DLCI: the frame goes nowhere (the implementation frees the buffer) and
+		 * costs no other frame */
+		if (ndv) viol(kindkey("misdelivered", cur.dlci), "frame for dlci 0x%02x, which has no handler, reached the handler of dlci 0x%02x (payload %s)",
+			      cur.dlci, dv[0].dlci, hex(dv[0].data, dv[0].len));
+		else n_unreg_frames++;
 		ndv = 0;
 		return;
 	}
@@ -766,7 +782,7 @@ static int run_tokens(const char *s)
 	char tok[64];
 	const char *q = s;
 	int n = 0;
-	nlong = 0; ntokstore = 0; nbl = 0;
+	nlong = 0; ntokstore = 0; nbl = 0; reg_all = 1;
 	tok_src = s; tok_done = 0; trace_fn = tokens_trace;
 	do_reset();
 	bad = 0;
@@ -791,6 +807,18 @@ static int run_tokens(const char *s)
 			if (sscanf(tok + 1, "%d.%d.%x.%x.%x", &d, &len, &first, &last, &fill) != 5 || len < 2 || len > 65000 || nlong >= 4 || d < 0 || d > 128) goto bad_tok;
 			memset(longbuf[nlong], fill, len); longbuf[nlong][0] = first; longbuf[nlong][len - 1] = last;
 			do_send(d, longbuf[nlong], len); nlong++;
+		} else if (tok[0] == 'G') {
+			/* G<d>.<d>...: handlers only on these DLCIs; must be the first event (registration happens at reset) */
+			const char *q2 = tok + 1;
+			if (n != 0) goto bad_tok;
+			memset(regmask, 0, sizeof(regmask)); reg_all = 0;
+			while (*q2) {
+				char *end; long d = strtol(q2, &end, 10);
+				if (end == q2 || d < 0 || d >= NDLCI) goto bad_tok;
+				regmask[d] = 1; q2 = *end == '.' ? end + 1 : end;
+				if (*end && *end != '.') goto bad_tok;
+			}
+			do_reset();
 		} else if (tok[0] == 'b' || tok[0] == 'c') {
 			/* backlog: b<dlci>.<n> queues n messages on one DLCI, c<dlciA>.<dlciB>.<n> n messages alternating */
 			int da, db, cnt, i;
@@ -946,6 +974,37 @@ static int do_resync(int part, int nparts)
 	return nviol ? 1 : 0;
 }
 
+/* ------------------------------------------------------------------ handlers on a subset of the DLCIs */
+/* For every DLCI d: handlers on {d} plus every subset of {0x7d, 0x7e, d^0x20} (the octets that show up on the
+ * wire when an address is escaped); frames to d and to those DLCIs, to DLCI 0 and to a neighbour, registered and
+ * unregistered interleaved, once one at a time and once all queued before the first octet is pulled.  Frames to a
+ * registered DLCI: exactly once, intact, in order; frames to an unregistered DLCI: no handler call, no other
+ * frame affected. */
+static int do_regsweep(int lo, int hi)
+{
+	unsigned long ncase = 0;
+	int d, m, form, i;
+	for (d = lo; d < hi; d++) {
+		int extra[3] = { 0x7d, 0x7e, d ^ 0x20 };
+		for (m = 0; m < 8; m++) for (form = 0; form < 2; form++) {
+			int tg[7] = { d, 0x7d, 0x7e, d ^ 0x20, 0x00, (d + 1) & 0x7f, d };
+			static const char *PAY[7] = { "41", "7d5e", "7e", "00", "7d", "4243", "-" };
+			char *p = casebuf;
+			p += sprintf(p, "G%d", d);
+			for (i = 0; i < 3; i++) if ((m >> i) & 1) p += sprintf(p, ".%d", extra[i]);
+			for (i = 0; i < 7; i++) p += sprintf(p, form ? ",s%d.%s" : ",s%d.%s,P", tg[i], PAY[i]);
+			p += sprintf(p, form ? ",D" : ",I");
+			run_tokens(casebuf);
+			ncase++;
+		}
+	}
+	reg_all = 1;
+	int hd = report_unconfirmed();
+	fprintf(res, "{\"regsweep_cases\": %lu, \"frames\": %lu, \"exact_deliveries\": %lu, \"frames_to_unregistered_dlci\": %lu, \"wire_octets\": %lu, \"history_dependent_keys\": %d, \"verify_requests\": %lu, \"violations\": %lu}\n",
+		ncase, n_frames, n_exact, n_unreg_frames, n_octets, hd, n_verify, nviol);
+	return nviol ? 1 : 0;
+}
+
 /* ------------------------------------------------------------------ transmit backlog */
 /* 255 / 256 / 257 / 512 messages queued (on one DLCI, on two DLCIs alternating, behind one message of a lower
  * priority DLCI, and while a frame is already on the wire), then drained: every message exactly once, per DLCI in
@@ -1039,5 +1098,6 @@ int main(int argc, char **argv)
 	if (!strcmp(argv[1], "resync") && argc >= 4) return do_resync(atoi(argv[2]), atoi(argv[3]));
 	if (!strcmp(argv[1], "echo")) return do_echo();
 	if (!strcmp(argv[1], "backlog")) return do_backlog();
+	if (!strcmp(argv[1], "regsweep") && argc >= 4) return do_regsweep(atoi(argv[2]), atoi(argv[3]));
 	return 2;
 }
